@@ -464,13 +464,15 @@ pub struct RunOpts {
     pub seed: Option<u64>,
     /// keep calling next() after a runtime error item
     pub continue_after_error: bool,
+    /// keep calling next() after a driver error item
+    pub continue_after_driver_error: bool,
     /// step fuel for the crate's statement iterator over the whole run (verif-hooks)
     pub fuel: Option<u64>,
 }
 
 impl Default for RunOpts {
     fn default() -> Self {
-        RunOpts { max_next: 2000, extra_after_end: 0, want_vars: false, seed: Some(0), continue_after_error: false, fuel: Some(DEFAULT_FUEL) }
+        RunOpts { max_next: 2000, extra_after_end: 0, want_vars: false, seed: Some(0), continue_after_error: false, continue_after_driver_error: false, fuel: Some(DEFAULT_FUEL) }
     }
 }
 
@@ -544,7 +546,8 @@ fn run_with<D: HasCore>(tc: &TestCase, mut driver: D, opts: &RunOpts) -> RealRun
                         }
                         Ok(Some(Err(e))) => {
                             let item = iter_err(&e, |d| d.id);
-                            let go_on = opts.continue_after_error && matches!(item, RealItem::RuntimeErr(_));
+                            let go_on = (opts.continue_after_error && matches!(item, RealItem::RuntimeErr(_)))
+                                || (opts.continue_after_driver_error && matches!(item, RealItem::DriverErr(_)));
                             run.items.push(item);
                             run.vars.push(None);
                             if !go_on {
